@@ -1,64 +1,699 @@
+(* json_max_fields_size (decoder/json.go cutFieldsBySize as repaired by ed38629): the cut never slices
+   out of range, shortens exactly the named string to the longest prefix of its escaped text that fits
+   the limit and splits no escape sequence, and touches nothing else. *)
 From Verif Require Import Base.Sx Base.GoSem Model.Decoders.Common Model.Decoders.JsonCut Proofs.Decoders.Common.
-From Coq Require Import Lia ZifyBool.
+From Coq Require Import Lia ZifyBool Permutation Sorted.
 
-(* with a non-negative limit (negative ones are rejected when the decoder is built) and the value
-   reported by gjson lying inside the document, the cut never slices out of range *)
+(* ---- valid escaped content: induction principle following esc_valid's own recursion ------------- *)
+Definition ordinary (c : byte) : Prop :=
+  beq c QUOTE = false /\ (c <? 32)%N = false /\ beq c BSLASH = false.
+
+Lemma hex_ordinary h : is_hex h = true -> ordinary h.
+Proof. intros H. unfold ordinary, is_hex, beq, QUOTE, BSLASH in *. lia. Qed.
+
+Lemma beq_eq a b : beq a b = true -> a = b.
+Proof. apply N.eqb_eq. Qed.
+
+Lemma esc_valid_ord c r : ordinary c -> esc_valid (c :: r) = esc_valid r.
+Proof. intros (H1 & H2 & H3). cbn [esc_valid]. rewrite H1, H2, H3. reflexivity. Qed.
+
+Lemma esc_valid_simple e r :
+  beq e LOWER_U = false -> esc_valid (BSLASH :: e :: r) = is_simple_escape e && esc_valid r.
+Proof. intros H. cbn [esc_valid]. rewrite H. reflexivity. Qed.
+
+Lemma esc_valid_uni h1 h2 h3 h4 r :
+  esc_valid (BSLASH :: LOWER_U :: h1 :: h2 :: h3 :: h4 :: r) =
+  is_hex h1 && is_hex h2 && is_hex h3 && is_hex h4 && esc_valid r.
+Proof. reflexivity. Qed.
+
+Lemma esc_valid_induction (P : bytes -> Prop)
+  (Hnil : P [])
+  (Hord : forall c r, ordinary c -> esc_valid r = true -> P r -> P (c :: r))
+  (Hesc : forall e r, beq e LOWER_U = false -> is_simple_escape e = true -> esc_valid r = true -> P r ->
+                      P (BSLASH :: e :: r))
+  (Huni : forall h1 h2 h3 h4 r, is_hex h1 = true -> is_hex h2 = true -> is_hex h3 = true -> is_hex h4 = true ->
+                                esc_valid r = true -> P r -> P (BSLASH :: LOWER_U :: h1 :: h2 :: h3 :: h4 :: r)) :
+  forall l, esc_valid l = true -> P l.
+Proof.
+  assert (G : forall n l, (length l <= n)%nat -> esc_valid l = true -> P l).
+  { induction n as [|n IH]; intros l Hn Hv.
+    - destruct l; [exact Hnil|cbn [length] in Hn; lia].
+    - destruct l as [|c r]; [exact Hnil|]. cbn [length] in Hn. cbn [esc_valid] in Hv.
+      destruct (beq c QUOTE) eqn:Eq; [discriminate|].
+      destruct (c <? 32)%N eqn:Ec; [discriminate|].
+      destruct (beq c BSLASH) eqn:Eb.
+      + apply beq_eq in Eb. subst c. destruct r as [|e r1]; [discriminate|]. cbn [length] in Hn.
+        destruct (beq e LOWER_U) eqn:Eu.
+        * apply beq_eq in Eu. subst e.
+          destruct r1 as [|h1 [|h2 [|h3 [|h4 r2]]]]; try discriminate. cbn [length] in Hn.
+          apply andb_prop in Hv. destruct Hv as [Hv Hr]. apply andb_prop in Hv. destruct Hv as [Hv H4].
+          apply andb_prop in Hv. destruct Hv as [Hv H3]. apply andb_prop in Hv. destruct Hv as [H1 H2].
+          apply Huni; try assumption. apply IH; [lia|assumption].
+        * apply andb_prop in Hv. destruct Hv as [Hs Hr]. apply Hesc; try assumption. apply IH; [lia|assumption].
+      + apply Hord; [repeat split; assumption|assumption|]. apply IH; [lia|assumption]. }
+  intros l. apply (G (length l)). lia.
+Qed.
+
+(* a prefix that ends inside an escape sequence is not valid escaped content *)
+Lemma esc_valid_lone_bslash : esc_valid [BSLASH] = false.
+Proof. reflexivity. Qed.
+
+Lemma esc_valid_cut_uni h1 h2 h3 h4 r k :
+  (1 <= k <= 5)%nat -> esc_valid (firstn k (BSLASH :: LOWER_U :: h1 :: h2 :: h3 :: h4 :: r)) = false.
+Proof.
+  intros H. destruct k as [|[|[|[|[|[|k]]]]]]; try lia; reflexivity.
+Qed.
+
+(* ---- len(v.Raw) - 2: the scan finds the closing quote of a valid string --------------------------- *)
+Lemma json_raw_len_valid raw : esc_valid raw = true ->
+  forall rest i, json_raw_len (raw ++ QUOTE :: rest) i = Some (i + len raw).
+Proof.
+  intros Hv. pattern raw. revert raw Hv. apply esc_valid_induction.
+  - intros rest i. cbn. f_equal. change (len (@nil byte)) with 0. lia.
+  - intros c r (H1 & H2 & H3) _ IH rest i. cbn [app json_raw_len]. rewrite H1, H3.
+    rewrite IH, len_cons. f_equal. lia.
+  - intros e r _ _ _ IH rest i. cbn [app json_raw_len]. change (beq BSLASH QUOTE) with false.
+    change (beq BSLASH BSLASH) with true. cbn match. rewrite IH, !len_cons. f_equal. lia.
+  - intros h1 h2 h3 h4 r H1 H2 H3 H4 _ IH rest i.
+    apply hex_ordinary in H1, H2, H3, H4.
+    destruct H1 as (A1 & _ & B1), H2 as (A2 & _ & B2), H3 as (A3 & _ & B3), H4 as (A4 & _ & B4).
+    cbn [app json_raw_len]. change (beq BSLASH QUOTE) with false. change (beq BSLASH BSLASH) with true. cbn match.
+    rewrite A1, B1, A2, B2, A3, B3, A4, B4, IH, !len_cons. f_equal. lia.
+Qed.
+
+(* whatever the document: a reported length lies inside it and a quote stands there *)
+Lemma json_raw_len_bounds : forall l i n, json_raw_len l i = Some n -> i <= n /\ n - i + 1 <= len l.
+Proof.
+  assert (G : forall m l, (length l <= m)%nat -> forall i n, json_raw_len l i = Some n -> i <= n /\ n - i + 1 <= len l).
+  { induction m as [|m IH]; intros l Hm i n H.
+    - destruct l; [discriminate|cbn [length] in Hm; lia].
+    - destruct l as [|c r]; [discriminate|]. cbn [length] in Hm. cbn [json_raw_len] in H. rewrite len_cons.
+      pose proof (len_nonneg r). destruct (beq c QUOTE).
+      + injection H as <-. lia.
+      + destruct (beq c BSLASH).
+        * destruct r as [|e r']; [discriminate|]. cbn [length] in Hm. rewrite len_cons.
+          apply IH in H; [|lia]. lia.
+        * apply IH in H; [|lia]. lia. }
+  intros l. apply (G (length l)). lia.
+Qed.
+
+(* ---- jsonCutKeep ----------------------------------------------------------------------------------- *)
+(* for ANY content (valid or not): no index out of range, and the result lies between i and limit *)
+Lemma json_cut_keep_from_total : forall rest i limit,
+  i <= limit <= i + len rest -> exists k, json_cut_keep_from rest i limit = Ok k /\ i <= k <= limit.
+Proof.
+  assert (G : forall m rest, (length rest <= m)%nat -> forall i limit,
+    i <= limit <= i + len rest -> exists k, json_cut_keep_from rest i limit = Ok k /\ i <= k <= limit).
+  { induction m as [|m IH]; intros rest Hm i limit H.
+    - destruct rest; [|cbn [length] in Hm; lia]. change (len (@nil byte)) with 0 in H.
+      exists limit. cbn [json_cut_keep_from]. unfold json_keep_end. replace (limit <=? i) with true by lia. split; [reflexivity|lia].
+    - destruct rest as [|c r].
+      { change (len (@nil byte)) with 0 in H.
+        exists limit. cbn [json_cut_keep_from]. unfold json_keep_end. replace (limit <=? i) with true by lia. split; [reflexivity|lia]. }
+      cbn [length] in Hm. rewrite len_cons in H. pose proof (len_nonneg r) as Lr. cbn [json_cut_keep_from].
+      destruct (limit <=? i) eqn:E0; [exists limit; split; [reflexivity|lia]|].
+      destruct (negb (beq c BSLASH)).
+      { destruct (IH r ltac:(lia) (i + 1) limit ltac:(lia)) as (k & Ek & Hk). exists k. split; [exact Ek|lia]. }
+      destruct r as [|u r1].
+      { change (len (@nil byte)) with 0 in H. replace (limit <? i + 2) with true by lia. exists i. split; [reflexivity|lia]. }
+      cbn [length] in Hm. rewrite len_cons in H. pose proof (len_nonneg r1) as Lr1.
+      destruct (beq u LOWER_U).
+      + destruct (limit <? i + 6) eqn:E6; [exists i; split; [reflexivity|lia]|].
+        destruct r1 as [|x1 [|x2 [|x3 [|x4 r2]]]]; try (rewrite ?len_cons in H; change (len (@nil byte)) with 0 in H; lia).
+        cbn [length] in Hm. rewrite !len_cons in H.
+        destruct (IH r2 ltac:(lia) (i + 6) limit ltac:(lia)) as (k & Ek & Hk). exists k. split; [exact Ek|lia].
+      + destruct (limit <? i + 2) eqn:E2; [exists i; split; [reflexivity|lia]|].
+        destruct (IH r1 ltac:(lia) (i + 2) limit ltac:(lia)) as (k & Ek & Hk). exists k. split; [exact Ek|lia]. }
+  intros rest. apply (G (length rest)). lia.
+Qed.
+
+Lemma json_cut_keep_total content limit : 0 <= limit ->
+  exists k, json_cut_keep content limit = Ok k /\ 0 <= k <= limit /\ k <= len content.
+Proof.
+  intros Hl. unfold json_cut_keep. pose proof (len_nonneg content).
+  destruct (len content <=? limit) eqn:E; [exists (len content); split; [reflexivity|lia]|].
+  destruct (json_cut_keep_from_total content 0 limit ltac:(lia)) as (k & Ek & Hk).
+  exists k. split; [exact Ek|lia].
+Qed.
+
+(* for valid escaped content: the loop stops at the last escape-sequence boundary that fits.
+   m = limit - i is what is left of the limit at rest = content[i:] *)
+Lemma json_cut_keep_from_valid raw : esc_valid raw = true ->
+  forall i limit, i <= limit < i + len raw ->
+  exists k : nat,
+    json_cut_keep_from raw i limit = Ok (i + Z.of_nat k) /\
+    Z.of_nat k <= limit - i /\ limit - i - 6 < Z.of_nat k /\
+    esc_valid (firstn k raw) = true /\
+    (forall k' : nat, Z.of_nat k < Z.of_nat k' <= limit - i -> esc_valid (firstn k' raw) = false).
+Proof.
+  intros Hv. pattern raw. revert raw Hv. apply esc_valid_induction.
+  - intros i limit H. change (len (@nil byte)) with 0 in H. lia.
+  - intros c r Hc _ IH i limit H. rewrite len_cons in H. cbn [json_cut_keep_from].
+    destruct (limit <=? i) eqn:E0.
+    { exists 0%nat. split; [f_equal; lia|]. repeat split; try lia. all: intros k' Hk'; lia. }
+    destruct Hc as (H1 & H2 & H3). rewrite H3. cbn [negb].
+    destruct (IH (i + 1) limit ltac:(lia)) as (k & Ek & Hk1 & Hk2 & Hk3 & Hk4).
+    exists (S k). split; [rewrite Ek; f_equal; lia|]. split; [lia|]. split; [lia|]. split.
+    + cbn [firstn]. rewrite esc_valid_ord by (repeat split; assumption). exact Hk3.
+    + intros k' Hk'. destruct k' as [|k']; [lia|]. cbn [firstn]. rewrite esc_valid_ord by (repeat split; assumption).
+      apply Hk4. lia.
+  - intros e r He Hs _ IH i limit H. rewrite !len_cons in H. cbn [json_cut_keep_from].
+    destruct (limit <=? i) eqn:E0.
+    { exists 0%nat. split; [f_equal; lia|]. repeat split; try lia. all: intros k' Hk'; lia. }
+    change (beq BSLASH BSLASH) with true. cbn [negb]. rewrite He.
+    destruct (limit <? i + 2) eqn:E2.
+    { exists 0%nat. split; [f_equal; lia|]. repeat split; try lia.
+      all: intros k' Hk'; assert (k' = 1%nat) by lia; subst k'; reflexivity. }
+    destruct (IH (i + 2) limit ltac:(lia)) as (k & Ek & Hk1 & Hk2 & Hk3 & Hk4).
+    exists (S (S k)). split; [rewrite Ek; f_equal; lia|]. split; [lia|]. split; [lia|]. split.
+    + cbn [firstn]. rewrite esc_valid_simple, Hs by assumption. exact Hk3.
+    + intros k' Hk'. destruct k' as [|[|k']]; [lia|lia|]. cbn [firstn]. rewrite esc_valid_simple, Hs by assumption.
+      apply Hk4. lia.
+  - intros h1 h2 h3 h4 r H1 H2 H3 H4 _ IH i limit H. rewrite !len_cons in H. cbn [json_cut_keep_from].
+    destruct (limit <=? i) eqn:E0.
+    { exists 0%nat. split; [f_equal; lia|]. repeat split; try lia. all: intros k' Hk'; lia. }
+    change (beq BSLASH BSLASH) with true. cbn [negb]. change (beq LOWER_U LOWER_U) with true. cbn match.
+    destruct (limit <? i + 6) eqn:E6.
+    { exists 0%nat. split; [f_equal; lia|]. repeat split; try lia.
+      all: intros k' Hk'; apply esc_valid_cut_uni; lia. }
+    destruct (IH (i + 6) limit ltac:(lia)) as (k & Ek & Hk1 & Hk2 & Hk3 & Hk4).
+    exists (6 + k)%nat. split; [rewrite Ek; f_equal; lia|]. split; [lia|]. split; [lia|]. split.
+    + cbn [firstn plus]. rewrite esc_valid_uni, H1, H2, H3, H4. exact Hk3.
+    + intros k' Hk'. destruct k' as [|[|[|[|[|[|k']]]]]]; try lia. cbn [firstn].
+      rewrite esc_valid_uni, H1, H2, H3, H4. apply Hk4. lia.
+Qed.
+
+(* ---- the document  pre "raw" post ------------------------------------------------------------------ *)
+Lemma skipn_len_app {A} (a b : list A) : skipn (Z.to_nat (len a)) (a ++ b) = b.
+Proof. unfold len. rewrite Nat2Z.id, skipn_app, Nat.sub_diag, skipn_all. reflexivity. Qed.
+
+Lemma json_raw_len_at_doc pre raw post : esc_valid raw = true ->
+  json_raw_len_at (pre ++ QUOTE :: raw ++ QUOTE :: post) (len pre) = Some (len raw).
+Proof.
+  intros Hv. unfold json_raw_len_at. rewrite len_app, len_cons, skipn_len_app.
+  pose proof (len_nonneg pre). pose proof (len_nonneg (raw ++ QUOTE :: post)).
+  replace ((0 <=? len pre) && (len pre <? len pre + (len (raw ++ QUOTE :: post) + 1))) with true by lia.
+  change (beq QUOTE QUOTE) with true. cbn match. rewrite json_raw_len_valid by exact Hv. f_equal; lia.
+Qed.
+
+Lemma slice_content {A} (pre : list A) x raw rest :
+  slice (pre ++ x :: raw ++ rest) (len pre + 1) (len pre + 1 + len raw) = Ok raw.
+Proof.
+  replace (pre ++ x :: raw ++ rest) with ((pre ++ [x]) ++ raw ++ rest) by (rewrite <- app_assoc; reflexivity).
+  replace (len pre + 1) with (len (pre ++ [x])) by (rewrite len_app; reflexivity).
+  apply slice_mid.
+Qed.
+
+Lemma json_cut_at_doc pre raw post (k : nat) : (k <= length raw)%nat ->
+  json_cut_at (pre ++ QUOTE :: raw ++ QUOTE :: post) (len pre + Z.of_nat k + 1, len pre + len raw) =
+  Ok (pre ++ QUOTE :: firstn k raw ++ QUOTE :: post).
+Proof.
+  intros Hk. unfold json_cut_at. cbn [fst snd].
+  assert (E1 : pre ++ QUOTE :: raw ++ QUOTE :: post = (pre ++ QUOTE :: firstn k raw) ++ (skipn k raw ++ QUOTE :: post)).
+  { rewrite <- app_assoc. cbn [app]. f_equal. f_equal. rewrite app_assoc. f_equal. symmetry. apply firstn_skipn. }
+  assert (Hl1 : len (firstn k raw) = Z.of_nat k).
+  { unfold len. rewrite firstn_length. lia. }
+  pose proof (len_nonneg pre).
+  rewrite E1 at 1.
+  replace (len pre + Z.of_nat k + 1) with (len (pre ++ QUOTE :: firstn k raw)) by (rewrite len_app, len_cons; lia).
+  rewrite slice_to_app. cbn [bind].
+  replace (pre ++ QUOTE :: raw ++ QUOTE :: post) with ((pre ++ QUOTE :: raw) ++ (QUOTE :: post))
+    by (rewrite <- !app_assoc; reflexivity).
+  replace (len pre + len raw + 1) with (len (pre ++ QUOTE :: raw)) by (rewrite len_app, len_cons; lia).
+  rewrite slice_from_app. cbn [bind]. rewrite <- !app_assoc. reflexivity.
+Qed.
+
+(* ---- how much is kept ------------------------------------------------------------------------------ *)
+Lemma json_kept_keep raw strlen limit : 0 <= limit -> limit < strlen ->
+  json_cut_keep raw limit = Ok (Z.of_nat (json_kept raw strlen limit)).
+Proof.
+  intros Hl Hs. unfold json_kept. replace (strlen <=? limit) with false by lia.
+  destruct (json_cut_keep_total raw limit Hl) as (k & Ek & Hk). rewrite Ek. f_equal. lia.
+Qed.
+
+Theorem json_kept_spec : forall raw strlen limit,
+  esc_valid raw = true -> 0 <= limit ->
+  let k := json_kept raw strlen limit in
+  (k <= length raw)%nat /\
+  esc_valid (firstn k raw) = true /\
+  (strlen <= limit -> k = length raw) /\
+  (limit < strlen ->
+     Z.of_nat k <= limit /\
+     (forall k' : nat, (k < k' <= length raw)%nat -> Z.of_nat k' <= limit -> esc_valid (firstn k' raw) = false) /\
+     (limit <= len raw -> limit - 6 < Z.of_nat k) /\
+     (limit <= len raw -> esc_valid (firstn (Z.to_nat limit) raw) = true -> Z.of_nat k = limit)).
+Proof.
+  intros raw strlen limit Hv Hl k. unfold k, json_kept.
+  destruct (strlen <=? limit) eqn:Es.
+  { rewrite firstn_all. repeat split; try lia; try assumption. }
+  unfold json_cut_keep. destruct (len raw <=? limit) eqn:El.
+  { unfold len. rewrite Nat2Z.id, firstn_all. unfold len in El.
+    repeat split; try lia; try assumption. all: intros; lia. }
+  destruct (json_cut_keep_from_valid raw Hv 0 limit ltac:(lia)) as (k0 & Ek & Hk1 & Hk2 & Hk3 & Hk4).
+  rewrite Ek. replace (Z.to_nat (0 + Z.of_nat k0)) with k0 by lia. unfold len in El.
+  assert (Hmax : forall k' : nat, (k0 < k' <= length raw)%nat -> Z.of_nat k' <= limit -> esc_valid (firstn k' raw) = false).
+  { intros k' Hk' Hk'l. apply Hk4. lia. }
+  split; [lia|]. split; [exact Hk3|]. split; [lia|]. intros _.
+  split; [lia|]. split; [exact Hmax|]. split; [intros _; lia|].
+  intros Hlr Hvl. destruct (Z.eq_dec (Z.of_nat k0) limit) as [E|N]; [exact E|].
+  rewrite (Hmax (Z.to_nat limit)) in Hvl; [discriminate|unfold len in Hlr; lia|lia].
+Qed.
+
+Lemma json_cut_pos_doc pre raw post strlen limit : esc_valid raw = true -> 0 <= limit ->
+  json_cut_pos (pre ++ QUOTE :: raw ++ QUOTE :: post) (len pre) strlen limit =
+  Ok (if strlen <=? limit then None
+      else Some (len pre + Z.of_nat (json_kept raw strlen limit) + 1, len pre + len raw)).
+Proof.
+  intros Hv Hl. unfold json_cut_pos. destruct (strlen <=? limit) eqn:Es; [reflexivity|].
+  rewrite json_raw_len_at_doc by exact Hv.
+  rewrite slice_content. cbn [bind]. rewrite (json_kept_keep raw strlen limit) by lia. reflexivity.
+Qed.
+
+(* ---- one path --------------------------------------------------------------------------------------- *)
+Theorem json_cut_doc : forall pre raw post strlen limit,
+  esc_valid raw = true -> 0 <= limit ->
+  json_cut (pre ++ QUOTE :: raw ++ QUOTE :: post) (len pre) strlen limit =
+  Ok (pre ++ QUOTE :: firstn (json_kept raw strlen limit) raw ++ QUOTE :: post).
+Proof.
+  intros pre raw post strlen limit Hv Hl. unfold json_cut. rewrite json_cut_pos_doc by assumption. cbn [bind].
+  pose proof (json_kept_spec raw strlen limit Hv Hl) as (Hk & _ & Hfit & _).
+  destruct (strlen <=? limit) eqn:Es.
+  - rewrite Hfit by lia. rewrite firstn_all. reflexivity.
+  - apply json_cut_at_doc. exact Hk.
+Qed.
+
+Theorem json_cut_spec : forall pre raw post strlen limit,
+  esc_valid raw = true -> 0 <= limit ->
+  exists k : nat,
+    json_cut (pre ++ QUOTE :: raw ++ QUOTE :: post) (len pre) strlen limit =
+      Ok (pre ++ QUOTE :: firstn k raw ++ QUOTE :: post) /\
+    (k <= length raw)%nat /\
+    esc_valid (firstn k raw) = true /\
+    (strlen <= limit -> k = length raw) /\
+    (limit < strlen ->
+       Z.of_nat k <= limit /\
+       (forall k' : nat, (k < k' <= length raw)%nat -> Z.of_nat k' <= limit -> esc_valid (firstn k' raw) = false) /\
+       (limit <= len raw -> limit - 6 < Z.of_nat k) /\
+       (limit <= len raw -> esc_valid (firstn (Z.to_nat limit) raw) = true -> Z.of_nat k = limit)).
+Proof.
+  intros pre raw post strlen limit Hv Hl. exists (json_kept raw strlen limit).
+  split; [apply json_cut_doc; assumption|]. apply json_kept_spec; assumption.
+Qed.
+
+Corollary json_cut_keeps_framing : forall pre raw post strlen limit,
+  esc_valid raw = true -> 0 <= limit ->
+  exists out, json_cut (pre ++ QUOTE :: raw ++ QUOTE :: post) (len pre) strlen limit = Ok out /\
+              cut_keeps_framing pre raw post out.
+Proof.
+  intros pre raw post strlen limit Hv Hl. eexists. split; [apply json_cut_doc; assumption|].
+  eexists. reflexivity.
+Qed.
+
+(* ---- totality: any document, any oracle values that point at a terminated string ------------------ *)
+Lemma json_raw_len_at_inv data index n : json_raw_len_at data index = Some n ->
+  0 <= index /\ 0 <= n /\ index + n + 2 <= len data.
+Proof.
+  unfold json_raw_len_at. destruct ((0 <=? index) && (index <? len data)) eqn:E; [|discriminate].
+  destruct (skipn (Z.to_nat index) data) as [|q tail] eqn:Es; [discriminate|].
+  destruct (beq q QUOTE); [|discriminate]. intros H. apply json_raw_len_bounds in H.
+  assert (L : len (q :: tail) = len data - index).
+  { rewrite <- Es. unfold len. rewrite skipn_length. unfold len in E. lia. }
+  rewrite len_cons in L. lia.
+Qed.
+
+Lemma json_cut_pos_total data index strlen limit : 0 <= limit -> json_raw_len_at data index <> None ->
+  exists r, json_cut_pos data index strlen limit = Ok r /\
+            match r with Some (s, e) => 0 <= s <= e + 1 /\ e + 1 <= len data | None => True end.
+Proof.
+  intros Hl Hr. unfold json_cut_pos. destruct (strlen <=? limit); [exists None; split; [reflexivity|exact I]|].
+  destruct (json_raw_len_at data index) as [n|] eqn:En; [|congruence].
+  apply json_raw_len_at_inv in En. destruct En as (H0 & Hn & Hd).
+  step_slice content. destruct (json_cut_keep_total content limit Hl) as (k & Ek & Hk). rewrite Ek. cbn [bind].
+  eexists. split; [reflexivity|]. cbn beta iota. lia.
+Qed.
+
 Theorem json_cut_total : forall data index strlen limit p,
-  0 <= limit -> 0 <= index -> index + strlen + 1 <= len data ->
+  0 <= limit -> json_raw_len_at data index <> None ->
   json_cut data index strlen limit <> Panic p.
 Proof.
-  intros data index strlen limit p Hl Hi Hin. unfold json_cut, json_cut_pos.
-  destruct (strlen <=? limit) eqn:E; [discriminate|].
+  intros data index strlen limit p Hl Hr. unfold json_cut.
+  destruct (json_cut_pos_total data index strlen limit Hl Hr) as (r & Er & Hb). rewrite Er. cbn [bind].
+  destruct r as [[s e]|]; [|discriminate].
   unfold json_cut_at, slice_to, slice_from. cbn [fst snd].
   step_slice a. step_slice b. discriminate.
 Qed.
 
-(* a string value without escape sequences (raw text = unescaped text, so len(Str) = len raw):
-   exactly the bytes beyond the limit are removed, everything else is preserved *)
-Theorem json_cut_spec : forall pre s post limit,
-  0 <= limit < len s ->
-  json_cut (pre ++ QUOTE :: s ++ QUOTE :: post) (len pre) (len s) limit =
-  Ok (pre ++ QUOTE :: firstn (Z.to_nat limit) s ++ QUOTE :: post).
+(* ---- several paths ---------------------------------------------------------------------------------- *)
+(* the cut positions of the fields in document order *)
+Fixpoint jf_poss (at_ : Z) (fs : list jfield) : list (Z * Z) :=
+  match fs with
+  | [] => []
+  | (raw, post, strlen, limit) :: r =>
+      (if strlen <=? limit then [] else [(at_ + Z.of_nat (json_kept raw strlen limit) + 1, at_ + len raw)])
+      ++ jf_poss (at_ + len raw + 2 + len post) r
+  end.
+
+Definition pos_list (data : bytes) (x : Z * Z * Z) : list (Z * Z) :=
+  let '(index, strlen, limit) := x in
+  match json_cut_pos data index strlen limit with Ok (Some p) => [p] | _ => [] end.
+
+Lemma jf_doc_cons raw post strlen limit r :
+  jf_doc ((raw, post, strlen, limit) :: r) = QUOTE :: raw ++ QUOTE :: post ++ jf_doc r.
+Proof. reflexivity. Qed.
+
+Lemma jf_cut_cons raw post strlen limit r :
+  jf_cut ((raw, post, strlen, limit) :: r) =
+  QUOTE :: firstn (json_kept raw strlen limit) raw ++ QUOTE :: post ++ jf_cut r.
+Proof. reflexivity. Qed.
+
+(* every position is found on the original document *)
+Lemma json_find_each : forall fs pre data, data = pre ++ jf_doc fs -> Forall jf_ok fs ->
+  (forall x, In x (jf_found (len pre) fs) ->
+     exists p, (let '(index, strlen, limit) := x in json_cut_pos data index strlen limit) = Ok p) /\
+  flat_map (pos_list data) (jf_found (len pre) fs) = jf_poss (len pre) fs.
 Proof.
-  intros pre s post limit Hl. unfold json_cut, json_cut_pos.
-  replace (len s <=? limit) with false by lia. unfold json_cut_at. cbn [fst snd].
-  set (n := Z.to_nat limit).
-  assert (E1 : pre ++ QUOTE :: s ++ QUOTE :: post = (pre ++ QUOTE :: firstn n s) ++ (skipn n s ++ QUOTE :: post)).
-  { rewrite <- app_assoc. cbn [app]. f_equal. f_equal. rewrite app_assoc. f_equal. symmetry. apply firstn_skipn. }
-  assert (Hl1 : len (firstn n s) = limit).
-  { unfold n, len in *. rewrite firstn_length. lia. }
-  pose proof (len_nonneg pre).
-  rewrite E1 at 1.
-  replace (len pre + limit + 1) with (len (pre ++ QUOTE :: firstn n s)) by (rewrite len_app, len_cons; lia).
-  rewrite slice_to_app. cbn [bind].
-  replace (pre ++ QUOTE :: s ++ QUOTE :: post) with ((pre ++ QUOTE :: s) ++ (QUOTE :: post))
-    by (rewrite <- !app_assoc; reflexivity).
-  replace (len pre + len s + 1) with (len (pre ++ QUOTE :: s)) by (rewrite len_app, len_cons; lia).
-  rewrite slice_from_app. cbn [bind]. rewrite <- !app_assoc. reflexivity.
+  induction fs as [|[[[raw post] strlen] limit] r IH]; intros pre data Hd Hok.
+  - split; [intros x []|reflexivity].
+  - inversion Hok as [|f r' Hf Hr]; subst f r'. unfold jf_ok in Hf. destruct Hf as [Hv Hl].
+    rewrite jf_doc_cons in Hd.
+    assert (E1 : json_cut_pos data (len pre) strlen limit =
+                 Ok (if strlen <=? limit then None
+                     else Some (len pre + Z.of_nat (json_kept raw strlen limit) + 1, len pre + len raw))).
+    { rewrite Hd. apply json_cut_pos_doc; assumption. }
+    set (pre' := pre ++ QUOTE :: raw ++ QUOTE :: post).
+    assert (Hd' : data = pre' ++ jf_doc r).
+    { rewrite Hd. unfold pre'. rewrite <- !app_assoc. cbn [app]. rewrite <- !app_assoc. reflexivity. }
+    assert (Hl' : len pre' = len pre + len raw + 2 + len post).
+    { unfold pre'. rewrite len_app, len_cons, len_app, len_cons. lia. }
+    destruct (IH pre' data Hd' Hr) as [IH1 IH2]. rewrite Hl' in IH1, IH2.
+    cbn [jf_found jf_poss flat_map]. split.
+    + intros x [<-|Hx]; [eexists; exact E1|apply IH1; exact Hx].
+    + rewrite IH2. f_equal. unfold pos_list. rewrite E1. destruct (strlen <=? limit); reflexivity.
 Qed.
 
-Corollary json_cut_keeps_framing : forall pre s post limit,
-  0 <= limit < len s ->
-  exists out, json_cut (pre ++ QUOTE :: s ++ QUOTE :: post) (len pre) (len s) limit = Ok out /\
-              cut_keeps_framing pre s post out.
+Lemma json_find_all_ok data : forall found,
+  (forall x, In x found ->
+     exists p, (let '(index, strlen, limit) := x in json_cut_pos data index strlen limit) = Ok p) ->
+  json_find_all data found = Ok (flat_map (pos_list data) found).
 Proof.
-  intros pre s post limit Hl. eexists. split; [apply json_cut_spec; exact Hl|].
-  exists (Z.to_nat limit). reflexivity.
+  induction found as [|[[index strlen] limit] r IH]; intros H; [reflexivity|].
+  destruct (H (index, strlen, limit) (or_introl eq_refl)) as [p Ep]. cbn beta iota in Ep.
+  cbn [json_find_all flat_map]. unfold pos_list at 1. rewrite Ep. cbn [bind].
+  rewrite IH by (intros x Hx; apply H; right; exact Hx). cbn [bind]. destruct p; reflexivity.
 Qed.
 
-(* with an escape sequence the unescaped length is shorter than the raw text and the cut, computed
-   from the unescaped length, lands inside the raw text:  {"a":"a\""}  limit 1  ->  {"a":"a""} *)
-Definition esc_pre : bytes := [123; 34; 97; 34; 58]%N.      (* {"a": *)
-Definition esc_raw : bytes := [97; 92; 34]%N.               (* a\"  (unescaped: a", 2 bytes) *)
-Definition esc_post : bytes := [125]%N.                     (* } *)
+(* sorting: a permutation of a list with strictly ascending starts sorts to its reverse *)
+Definition pos_ge (a b : Z * Z) : Prop := fst b <= fst a.
+Definition pos_gt (a b : Z * Z) : Prop := fst b < fst a.
+Definition pos_lt (a b : Z * Z) : Prop := fst a < fst b.
 
-Theorem json_cut_escaped_refuted :
-  exists pre raw post strlen limit out,
-    strlen < len raw /\ 0 <= limit < strlen /\
-    json_cut (pre ++ QUOTE :: raw ++ QUOTE :: post) (len pre) strlen limit = Ok out /\
+Lemma insert_desc_perm p l : Permutation (insert_desc p l) (p :: l).
+Proof.
+  induction l as [|q r IH]; [reflexivity|]. cbn [insert_desc]. destruct (fst q <? fst p); [reflexivity|].
+  rewrite IH. apply perm_swap.
+Qed.
+
+Lemma sort_desc_perm l : Permutation (sort_desc l) l.
+Proof.
+  induction l as [|p r IH]; [reflexivity|]. unfold sort_desc in *. cbn [fold_right].
+  rewrite insert_desc_perm. apply perm_skip. exact IH.
+Qed.
+
+Lemma insert_desc_sorted p l : StronglySorted pos_ge l -> StronglySorted pos_ge (insert_desc p l).
+Proof.
+  induction l as [|q r IH]; intros Hs; cbn [insert_desc].
+  - constructor; constructor.
+  - inversion Hs as [|q' r' Hr Hq]; subst q' r'. destruct (fst q <? fst p) eqn:E.
+    + constructor; [exact Hs|]. constructor; [unfold pos_ge; lia|].
+      eapply Forall_impl; [|exact Hq]. unfold pos_ge. intros x Hx. lia.
+    + constructor; [apply IH; exact Hr|].
+      eapply Permutation_Forall; [symmetry; apply insert_desc_perm|].
+      constructor; [unfold pos_ge; lia|exact Hq].
+Qed.
+
+Lemma sort_desc_sorted l : StronglySorted pos_ge (sort_desc l).
+Proof.
+  induction l as [|p r IH]; [constructor|]. unfold sort_desc in *. cbn [fold_right].
+  apply insert_desc_sorted. exact IH.
+Qed.
+
+Lemma sorted_unique : forall l1 l2, Permutation l1 l2 ->
+  StronglySorted pos_ge l1 -> StronglySorted pos_gt l2 -> l1 = l2.
+Proof.
+  induction l1 as [|a l1 IH]; intros l2 Hp H1 H2.
+  - apply Permutation_nil in Hp. subst. reflexivity.
+  - destruct l2 as [|b l2]; [symmetry in Hp; apply Permutation_nil in Hp; discriminate|].
+    inversion H1 as [|a' l1' S1 F1]; subst a' l1'. inversion H2 as [|b' l2' S2 F2]; subst b' l2'.
+    assert (E : a = b).
+    { assert (Ia : In a (b :: l2)) by (eapply Permutation_in; [exact Hp|left; reflexivity]).
+      assert (Ib : In b (a :: l1)) by (eapply Permutation_in; [symmetry; exact Hp|left; reflexivity]).
+      destruct Ia as [->|Ia]; [reflexivity|]. destruct Ib as [->|Ib]; [reflexivity|].
+      rewrite Forall_forall in F1, F2. specialize (F1 b Ib). specialize (F2 a Ia).
+      unfold pos_ge, pos_gt in *. lia. }
+    subst b. f_equal. apply IH; [eapply Permutation_cons_inv; exact Hp|exact S1|exact S2].
+Qed.
+
+Lemma rev_sorted l : StronglySorted pos_lt l -> StronglySorted pos_gt (rev l).
+Proof.
+  induction l as [|a l IH]; intros H; [constructor|]. inversion H as [|a' l' S F]; subst a' l'.
+  cbn [rev]. specialize (IH S). clear H S.
+  induction (rev l) as [|x r IHr] eqn:Er in IH, F |- *.
+  - constructor; constructor.
+  - assert (Fr : Forall (pos_lt a) (x :: r)).
+    { rewrite <- Er. eapply Permutation_Forall; [apply Permutation_rev|exact F]. }
+    clear F Er. revert IH Fr. generalize (x :: r). clear.
+    induction l as [|y l IHl]; intros S F; [constructor; constructor|].
+    inversion S as [|y' l' S' F']; subst y' l'. inversion F as [|y' l' Fy Fl]; subst y' l'.
+    cbn [app]. constructor; [apply IHl; assumption|].
+    apply Forall_app. split; [exact F'|]. constructor; [unfold pos_gt, pos_lt in *; lia|constructor].
+Qed.
+
+Lemma sort_desc_of_perm l asc : Permutation l asc -> StronglySorted pos_lt asc -> sort_desc l = rev asc.
+Proof.
+  intros Hp Hs. apply sorted_unique; [|apply sort_desc_sorted|apply rev_sorted; exact Hs].
+  rewrite sort_desc_perm, Hp. apply Permutation_rev.
+Qed.
+
+(* the positions of the fields are strictly ascending *)
+Lemma jf_poss_after : forall fs at_, Forall jf_ok fs -> Forall (fun p => at_ < fst p) (jf_poss at_ fs).
+Proof.
+  induction fs as [|[[[raw post] strlen] limit] r IH]; intros at_ Hok; [constructor|].
+  inversion Hok as [|f r' Hf Hr]; subst f r'. unfold jf_ok in Hf. destruct Hf as [Hv Hl]. cbn [jf_poss]. apply Forall_app. split.
+  - destruct (strlen <=? limit); constructor; [cbn [fst]; lia|constructor].
+  - eapply Forall_impl; [|apply IH; exact Hr]. cbn beta. intros p Hp.
+    pose proof (len_nonneg raw). pose proof (len_nonneg post). lia.
+Qed.
+
+Lemma jf_poss_sorted : forall fs at_, Forall jf_ok fs -> StronglySorted pos_lt (jf_poss at_ fs).
+Proof.
+  induction fs as [|[[[raw post] strlen] limit] r IH]; intros at_ Hok; [constructor|].
+  inversion Hok as [|f r' Hf Hr]; subst f r'. unfold jf_ok in Hf. destruct Hf as [Hv Hl]. cbn [jf_poss].
+  destruct (strlen <=? limit); cbn [app]; [apply IH; exact Hr|].
+  constructor; [apply IH; exact Hr|].
+  eapply Forall_impl; [|apply jf_poss_after; exact Hr]. cbn beta. unfold pos_lt. cbn [fst]. intros p Hp.
+  pose proof (json_kept_spec raw strlen limit Hv Hl) as (Hk & _). pose proof (len_nonneg post). unfold len in *. lia.
+Qed.
+
+Lemma json_cut_all_app : forall a b data,
+  json_cut_all data (a ++ b) = (d <- json_cut_all data a ;; json_cut_all d b).
+Proof.
+  induction a as [|p a IH]; intros b data; [reflexivity|]. cbn [app json_cut_all].
+  destruct (json_cut_at data p); cbn [bind]; [apply IH|reflexivity|reflexivity].
+Qed.
+
+(* cutting from the last position to the first: no cut moves a position that is still to be cut *)
+Lemma json_cut_all_doc : forall fs pre, Forall jf_ok fs ->
+  json_cut_all (pre ++ jf_doc fs) (rev (jf_poss (len pre) fs)) = Ok (pre ++ jf_cut fs).
+Proof.
+  induction fs as [|[[[raw post] strlen] limit] r IH]; intros pre Hok; [reflexivity|].
+  inversion Hok as [|f r' Hf Hr]; subst f r'. unfold jf_ok in Hf. destruct Hf as [Hv Hl].
+  cbn [jf_poss]. rewrite rev_app_distr, json_cut_all_app, jf_doc_cons, jf_cut_cons.
+  set (pre' := pre ++ QUOTE :: raw ++ QUOTE :: post).
+  assert (Hl' : len pre' = len pre + len raw + 2 + len post).
+  { unfold pre'. rewrite len_app, len_cons, len_app, len_cons. lia. }
+  replace (pre ++ QUOTE :: raw ++ QUOTE :: post ++ jf_doc r) with (pre' ++ jf_doc r)
+    by (unfold pre'; rewrite <- !app_assoc; cbn [app]; rewrite <- !app_assoc; reflexivity).
+  rewrite <- Hl', IH by exact Hr. cbn [bind].
+  replace (pre' ++ jf_cut r) with (pre ++ QUOTE :: raw ++ QUOTE :: (post ++ jf_cut r))
+    by (unfold pre'; rewrite <- !app_assoc; cbn [app]; rewrite <- !app_assoc; reflexivity).
+  pose proof (json_kept_spec raw strlen limit Hv Hl) as (Hk & _ & Hfit & _).
+  destruct (strlen <=? limit) eqn:Es; cbn [rev app json_cut_all].
+  - rewrite Hfit by lia. rewrite firstn_all. reflexivity.
+  - rewrite json_cut_at_doc by exact Hk. reflexivity.
+Qed.
+
+(* gjson's answers arrive in the (random) iteration order of a Go map: any permutation *)
+Theorem json_cut_many_spec : forall pre fs found,
+  Forall jf_ok fs -> Permutation found (jf_found (len pre) fs) ->
+  json_cut_many (pre ++ jf_doc fs) found = Ok (pre ++ jf_cut fs).
+Proof.
+  intros pre fs found Hok Hp. unfold json_cut_many.
+  destruct (json_find_each fs pre _ eq_refl Hok) as [Heach Hflat].
+  rewrite json_find_all_ok by (intros x Hx; apply Heach; eapply Permutation_in; [exact Hp|exact Hx]).
+  cbn [bind]. rewrite (sort_desc_of_perm _ (jf_poss (len pre) fs)).
+  - apply json_cut_all_doc. exact Hok.
+  - rewrite <- Hflat. apply Permutation_flat_map. exact Hp.
+  - apply jf_poss_sorted. exact Hok.
+Qed.
+
+(* ---- the runner's predicate (json_cut_framed) says what the theorems say --------------------------- *)
+Lemma strip_prefix_iff : forall p l r, strip_prefix p l = Some r <-> l = p ++ r.
+Proof.
+  induction p as [|a p IH]; intros l r; cbn [strip_prefix app].
+  - split; [intros H; injection H as ->; reflexivity|intros ->; reflexivity].
+  - destruct l as [|b l]; [split; discriminate|]. destruct (beq a b) eqn:E.
+    + apply beq_eq in E. subst b. rewrite IH. split; [intros ->; reflexivity|intros H; injection H as ->; reflexivity].
+    + split; [discriminate|]. intros H. injection H as <- _. unfold beq in E. rewrite N.eqb_refl in E. discriminate.
+Qed.
+
+Lemma strip_prefix_app p r : strip_prefix p (p ++ r) = Some r.
+Proof. apply strip_prefix_iff. reflexivity. Qed.
+
+Lemma field_framed_iff (K : bytes -> bool) post : forall raw out,
+  field_framed K post raw out = true <->
+  exists (k : nat) out', out = firstn k raw ++ QUOTE :: post ++ out' /\ K out' = true.
+Proof.
+  induction raw as [|c raw IH]; intros out.
+  - cbn [field_framed]. rewrite Bool.orb_false_r. split.
+    + destruct (strip_prefix (QUOTE :: post) out) as [o|] eqn:E; [|discriminate]. intros HK.
+      apply strip_prefix_iff in E. exists 0%nat, o. split; [exact E|exact HK].
+    + intros (k & o & -> & HK). rewrite firstn_nil. cbn [app].
+      change (QUOTE :: post ++ o) with ((QUOTE :: post) ++ o). rewrite strip_prefix_app. exact HK.
+  - cbn [field_framed]. rewrite Bool.orb_true_iff. split.
+    + intros [H|H].
+      * destruct (strip_prefix (QUOTE :: post) out) as [o|] eqn:E; [|discriminate].
+        apply strip_prefix_iff in E. exists 0%nat, o. split; [exact E|exact H].
+      * destruct out as [|d out]; [discriminate|]. apply andb_prop in H. destruct H as [Hc H].
+        apply beq_eq in Hc. subst d. apply IH in H. destruct H as (k & o & -> & HK).
+        exists (S k), o. split; [reflexivity|exact HK].
+    + intros (k & o & -> & HK). destruct k as [|k].
+      * left. cbn [firstn app]. change (QUOTE :: post ++ o) with ((QUOTE :: post) ++ o).
+        rewrite strip_prefix_app. exact HK.
+      * right. cbn [firstn app]. unfold beq at 1. rewrite N.eqb_refl. cbn [andb]. apply IH.
+        exists k, o. split; [reflexivity|exact HK].
+Qed.
+
+Theorem fields_framed_iff : forall fs out,
+  fields_framed fs out = true <-> exists ks, length ks = length fs /\ out = cut_doc fs ks.
+Proof.
+  induction fs as [|[raw post] r IH]; intros out.
+  - cbn [fields_framed]. split.
+    + destruct out; [|discriminate]. intros _. exists []. split; reflexivity.
+    + intros (ks & _ & ->). destruct ks; reflexivity.
+  - cbn [fields_framed]. split.
+    + destruct out as [|q out]; [discriminate|]. intros H. apply andb_prop in H. destruct H as [Hq H].
+      apply beq_eq in Hq. subst q. apply field_framed_iff in H. destruct H as (k & o & -> & HK).
+      apply IH in HK. destruct HK as (ks & Hl & ->). exists (k :: ks). split; [cbn [length]; lia|].
+      reflexivity.
+    + intros (ks & Hl & ->). destruct ks as [|k ks]; [discriminate|]. cbn [cut_doc].
+      change (beq QUOTE QUOTE) with true. cbn [andb]. apply field_framed_iff.
+      exists k, (cut_doc r ks). split; [reflexivity|].
+      apply IH. exists ks. split; [cbn [length] in Hl; lia|reflexivity].
+Qed.
+
+(* the named strings the runner finds in  pre ++ jf_doc fs  are the fields of fs *)
+Fixpoint jf_strs (at_ : Z) (fs : list jfield) : list (Z * Z) :=
+  match fs with
+  | [] => []
+  | (raw, post, _, _) :: r => (at_, len raw) :: jf_strs (at_ + len raw + 2 + len post) r
+  end.
+
+Lemma json_named_doc : forall fs pre data, data = pre ++ jf_doc fs -> Forall jf_ok fs ->
+  json_named_strings data (jf_found (len pre) fs) = Some (jf_strs (len pre) fs).
+Proof.
+  induction fs as [|[[[raw post] strlen] limit] r IH]; intros pre data Hd Hok; [reflexivity|].
+  inversion Hok as [|f r' Hf Hr]; subst f r'. unfold jf_ok in Hf. destruct Hf as [Hv Hl].
+  rewrite jf_doc_cons in Hd.
+  set (pre' := pre ++ QUOTE :: raw ++ QUOTE :: post).
+  assert (Hd' : data = pre' ++ jf_doc r).
+  { rewrite Hd. unfold pre'. rewrite <- !app_assoc. cbn [app]. rewrite <- !app_assoc. reflexivity. }
+  assert (Hl' : len pre' = len pre + len raw + 2 + len post).
+  { unfold pre'. rewrite len_app, len_cons, len_app, len_cons. lia. }
+  specialize (IH pre' data Hd' Hr). rewrite Hl' in IH.
+  unfold json_named_strings in *. cbn [jf_found jf_strs fold_right]. rewrite IH.
+  replace (json_raw_len_at data (len pre)) with (Some (len raw)) by (rewrite Hd; symmetry; apply json_raw_len_at_doc; exact Hv).
+  f_equal. destruct r as [|[[[raw2 post2] s2] l2] r2]; [reflexivity|]. cbn [jf_strs insert_asc fst].
+  pose proof (len_nonneg raw). pose proof (len_nonneg post).
+  replace (len pre <? len pre + len raw + 2 + len post) with true by lia. reflexivity.
+Qed.
+
+Lemma split_fields_doc : forall fs x at_,
+  split_fields (x ++ jf_doc fs) at_ (jf_strs (at_ + len x) fs) = Some (x, jf_pairs fs).
+Proof.
+  induction fs as [|[[[raw post] strlen] limit] r IH]; intros x at_.
+  - cbn. rewrite app_nil_r. reflexivity.
+  - rewrite jf_doc_cons. cbn [jf_strs split_fields jf_pairs map].
+    pose proof (len_nonneg x). pose proof (len_nonneg raw). pose proof (len_nonneg post). pose proof (len_nonneg (jf_doc r)).
+    replace ((at_ <=? at_ + len x) && (0 <=? len raw) &&
+             (at_ + len x - at_ + len raw + 2 <=? len (x ++ QUOTE :: raw ++ QUOTE :: post ++ jf_doc r))) with true
+      by (rewrite len_app, len_cons, len_app, len_cons, len_app; lia).
+    replace (Z.to_nat (at_ + len x - at_)) with (length x) by (unfold len; lia).
+    replace (Z.to_nat (len raw)) with (length raw) by (unfold len; lia).
+    rewrite firstn_app, Nat.sub_diag, firstn_all. cbn [firstn]. rewrite app_nil_r.
+    replace (skipn (S (length x)) (x ++ QUOTE :: raw ++ QUOTE :: post ++ jf_doc r)) with (raw ++ QUOTE :: post ++ jf_doc r).
+    2:{ replace (S (length x)) with (length (x ++ [QUOTE])) by (rewrite app_length; cbn [length]; lia).
+        replace (x ++ QUOTE :: raw ++ QUOTE :: post ++ jf_doc r) with ((x ++ [QUOTE]) ++ raw ++ QUOTE :: post ++ jf_doc r)
+          by (rewrite <- app_assoc; reflexivity).
+        rewrite skipn_app, Nat.sub_diag, skipn_all. reflexivity. }
+    rewrite firstn_app, Nat.sub_diag, firstn_all. cbn [firstn]. rewrite app_nil_r.
+    replace (skipn (S (S (length x)) + length raw) (x ++ QUOTE :: raw ++ QUOTE :: post ++ jf_doc r)) with (post ++ jf_doc r).
+    2:{ replace (S (S (length x)) + length raw)%nat with (length (x ++ QUOTE :: raw ++ [QUOTE]))
+          by (rewrite app_length; cbn [length]; rewrite app_length; cbn [length]; lia).
+        replace (x ++ QUOTE :: raw ++ QUOTE :: post ++ jf_doc r) with ((x ++ QUOTE :: raw ++ [QUOTE]) ++ post ++ jf_doc r)
+          by (rewrite <- !app_assoc; cbn [app]; rewrite <- !app_assoc; reflexivity).
+        rewrite skipn_app, Nat.sub_diag, skipn_all. reflexivity. }
+    replace (at_ + len x + len raw + 2 + len post) with ((at_ + len x + len raw + 2) + len post) by lia.
+    rewrite IH. reflexivity.
+Qed.
+
+Theorem json_cut_framed_doc : forall pre fs out, Forall jf_ok fs ->
+  (json_cut_framed (pre ++ jf_doc fs) (jf_found (len pre) fs) out = Some true <->
+   exists ks, length ks = length fs /\ out = pre ++ cut_doc (jf_pairs fs) ks).
+Proof.
+  intros pre fs out Hok. unfold json_cut_framed.
+  rewrite (json_named_doc fs pre _ eq_refl Hok).
+  pose proof (split_fields_doc fs pre 0) as Hs. cbn [Z.add] in Hs. rewrite Hs. split.
+  - intros H. injection H as H. destruct (strip_prefix pre out) as [o|] eqn:E; [|discriminate].
+    apply strip_prefix_iff in E. apply fields_framed_iff in H. destruct H as (ks & Hl & ->).
+    exists ks. split; [unfold jf_pairs in Hl; rewrite map_length in Hl; exact Hl|exact E].
+  - intros (ks & Hl & ->). rewrite strip_prefix_app. f_equal.
+    apply fields_framed_iff. exists ks. split; [unfold jf_pairs; rewrite map_length; exact Hl|reflexivity].
+Qed.
+
+Lemma jf_cut_is_cut_doc : forall fs,
+  jf_cut fs = cut_doc (jf_pairs fs) (map (fun '(raw, _, strlen, limit) => json_kept raw strlen limit) fs).
+Proof.
+  induction fs as [|[[[raw post] strlen] limit] r IH]; [reflexivity|].
+  rewrite jf_cut_cons. cbn [jf_pairs map cut_doc]. f_equal. f_equal. f_equal. f_equal. exact IH.
+Qed.
+
+(* what the model computes passes the runner's predicate *)
+Corollary json_cut_many_framed : forall pre fs, Forall jf_ok fs ->
+  json_cut_framed (pre ++ jf_doc fs) (jf_found (len pre) fs) (pre ++ jf_cut fs) = Some true.
+Proof.
+  intros pre fs Hok. apply json_cut_framed_doc; [exact Hok|].
+  eexists. split; [|rewrite jf_cut_is_cut_doc; reflexivity]. rewrite map_length. reflexivity.
+Qed.
+
+(* ---- two paths that resolve to the SAME string (e.g. a and \a): the positions overlap --------------- *)
+(* {"a":"0123456789","z":"tail"} with limits 3 and 5 on the one string: both positions are computed on
+   the original document, the second cut removes the closing quote and what follows it *)
+(* (last section of the file: String is imported only for the literals below) *)
+From Coq Require Import Strings.String.
+Local Open Scope string_scope.
+Definition alias_pre : bytes := bs "{""a"":".
+Definition alias_raw : bytes := bs "0123456789".
+Definition alias_post : bytes := bs ",""z"":""tail""}".
+Local Close Scope string_scope.
+Local Open Scope Z_scope.
+
+Theorem json_cut_many_aliased_refuted :
+  exists pre raw post strlen l1 l2 out,
+    esc_valid raw = true /\ 0 <= l1 /\ 0 <= l2 /\
+    json_cut_many (pre ++ QUOTE :: raw ++ QUOTE :: post) [(len pre, strlen, l1); (len pre, strlen, l2)] = Ok out /\
     ~ cut_keeps_framing pre raw post out.
 Proof.
-  exists esc_pre, esc_raw, esc_post, 2, 1. eexists. split; [vm_compute; reflexivity|].
-  split; [lia|]. split; [vm_compute; reflexivity|].
-  intros [k Hk]. destruct k as [|[|[|k]]]; vm_compute in Hk; discriminate Hk.
+  exists alias_pre, alias_raw, alias_post, 10, 3, 5. eexists.
+  split; [reflexivity|]. split; [lia|]. split; [lia|]. split; [vm_compute; reflexivity|].
+  intros [k Hk]. do 11 (try destruct k as [|k]); vm_compute in Hk; discriminate Hk.
 Qed.
